@@ -49,12 +49,38 @@ FP = z3.Float64()
 # merely splits on the kind of a value.
 FpOf = z3.Function('FpOf', z3.IntSort(), FP)
 FpId = z3.Function('FpId', FP, z3.IntSort())
-StrOf = z3.Function('StrOf', z3.IntSort(), z3.StringSort())
-StrId = z3.Function('StrId', z3.StringSort(), z3.IntSort())
+
+# Strings are opaque: a string is an integer code.  Literals are interned
+# (distinct literals get distinct codes, "" is 0); every other string is some
+# integer.  Length, concatenation, prefix tests ... are uninterpreted functions
+# over codes.  (Measured: the mere presence of z3's String sort in the queries
+# of this engine makes satisfiable instances 100x slower.)
+STR = z3.IntSort()
+_LIT = {'': 0}
+_LIT_REV = {0: ''}
+
+
+def strlit(text):
+    if text not in _LIT:
+        code = len(_LIT)
+        _LIT[text] = code
+        _LIT_REV[code] = text
+    return z3.IntVal(_LIT[text])
+
+
+def is_strlit(t):
+    t = z3.simplify(t) if z3.is_expr(t) else t
+    return z3.is_int_value(t) and t.as_long() in _LIT_REV
+
+
+def strlit_text(t):
+    return _LIT_REV[z3.simplify(t).as_long()]
 
 AXIOMS = []
 _AX_SEEN = set()
 KEEP = []
+SAT_SEEN = set()
+SAT_NAX = [0]
 
 
 def tid(t):
@@ -68,6 +94,8 @@ def reset_axioms():
     del AXIOMS[:]
     _AX_SEEN.clear()
     del KEEP[:]
+    SAT_SEEN.clear()
+    SAT_NAX[0] = 0
 
 
 def _axiom(key, fact):
@@ -86,32 +114,20 @@ class _ValNS(object):
         return getattr(VS, name)
 
     def VStr(self, s):
-        s = z3.simplify(s)
-        _axiom(('so', tid(s)), StrOf(StrId(s)) == s)
-        return VS.VStr(StrId(s))
+        return VS.VStr(s)
 
     def VBytes(self, s):
-        s = z3.simplify(s)
-        _axiom(('so', tid(s)), StrOf(StrId(s)) == s)
-        return VS.VBytes(StrId(s))
+        return VS.VBytes(s)
 
     def VFloat(self, f):
         _axiom(('fo', tid(f)), FpOf(FpId(f)) == f)
         return VS.VFloat(FpId(f))
 
     def s(self, t):
-        i = z3.simplify(VS.sid(t))
-        if z3.is_app(i) and i.decl().name() == 'StrId':
-            return i.arg(0)
-        _axiom(('si', tid(i)), StrId(StrOf(i)) == i)
-        return StrOf(i)
+        return z3.simplify(VS.sid(t))
 
     def bs(self, t):
-        i = z3.simplify(VS.bid(t))
-        if z3.is_app(i) and i.decl().name() == 'StrId':
-            return i.arg(0)
-        _axiom(('si', tid(i)), StrId(StrOf(i)) == i)
-        return StrOf(i)
+        return z3.simplify(VS.bid(t))
 
     def f(self, t):
         i = z3.simplify(VS.fid(t))
@@ -169,13 +185,13 @@ def fpval(x):
 
 
 def vstr(s):
-    return Val.VStr(s if z3.is_expr(s) else z3.StringVal(s))
+    return Val.VStr(s if z3.is_expr(s) else strlit(s))
 
 
 def vbytes(s):
     if z3.is_expr(s):
         return Val.VBytes(s)
-    return Val.VBytes(z3.StringVal(s.decode('latin-1') if isinstance(s, (bytes, bytearray)) else s))
+    return Val.VBytes(strlit(s.decode('latin-1') if isinstance(s, (bytes, bytearray)) else s))
 
 
 def is_integral(t):
@@ -301,9 +317,9 @@ def decode_val(model, t, depth=0):
         f = _fp_to_py(model.eval(FpOf(t.arg(0)), model_completion=True))
         return {'k': 'float', 'v': repr(f)}
     if d == 'VStr':
-        return {'k': 'str', 'v': _zstr(model.eval(StrOf(t.arg(0)), model_completion=True))}
+        return {'k': 'str', 'v': _zstr(t.arg(0))}
     if d == 'VBytes':
-        return {'k': 'bytes', 'v': _zstr(model.eval(StrOf(t.arg(0)), model_completion=True))}
+        return {'k': 'bytes', 'v': _zstr(t.arg(0))}
     if d in ('VList', 'VTuple'):
         n = t.arg(0).as_long()
         items = []
@@ -339,31 +355,35 @@ def decode_val(model, t, depth=0):
 
 
 def _zstr(t):
-    if z3.is_string_value(t):
-        return t.as_string()
+    """text of a string code in a model: the literal, or a made-up distinct text"""
+    if z3.is_int_value(t):
+        k = t.as_long()
+        if k in _LIT_REV:
+            return _LIT_REV[k]
+        return 's%d' % k if k >= 0 else 'n%d' % -k
     raise ModelDecodeError('not a string value: %s' % t)
 
 
 # length of strings / bytes: an uninterpreted function unless the engine runs
 # in string-theory mode (keeps the sequence solver out of queries that only
 # need "a length")
-StrLenUF = z3.Function('StrLen', z3.StringSort(), z3.IntSort())
+StrLenUF = z3.Function('StrLen', z3.IntSort(), z3.IntSort())
 STRING_THEORY = [False]
 
 
 def strlen(s):
-    if STRING_THEORY[0]:
-        return z3.Length(s)
     s = z3.simplify(s)
-    if z3.is_string_value(s):
-        return z3.IntVal(len(s.as_string()))
+    if is_strlit(s):
+        return z3.IntVal(len(strlit_text(s)))
     return StrLenUF(s)
 
 
 def strlen_axioms(s):
-    if STRING_THEORY[0]:
-        return []
     s = z3.simplify(s)
-    if z3.is_string_value(s):
+    if is_strlit(s):
         return []
-    return [StrLenUF(s) >= 0, (StrLenUF(s) == 0) == (s == z3.StringVal(""))]
+    ax = [StrLenUF(s) >= 0, (StrLenUF(s) == 0) == (s == strlit(""))]
+    # the lengths of the literals that occur
+    for text, code in list(_LIT.items())[:200]:
+        ax.append(z3.Implies(s == code, StrLenUF(s) == len(text)))
+    return ax
